@@ -670,6 +670,9 @@ func c19Run(c *core.Ctx, i int) {
 		return
 	}
 	ok := c19Judge(c, seq, src, doc, "library")
+	if !expectPanic && i%3 == 2 {
+		c19Grouping(c, seq, src, doc)
+	}
 	if ok && c.EvyBin != "" && i%25 == 0 {
 		path := filepath.Join(c.Tmp, "c19.evy")
 		_ = os.WriteFile(path, []byte(src), 0o644)
@@ -746,4 +749,78 @@ func xmlText(s string) string {
 		b.WriteRune(r)
 	}
 	return b.String()
+}
+
+// initial values of the presentation attributes (SVG 1.1)
+var c19Initial = map[string]string{"fill": "black", "stroke": "none", "stroke-width": "1", "stroke-linecap": "butt", "stroke-dasharray": "none", "font-size": "medium", "font-weight": "normal", "font-style": "normal", "font-family": "", "text-anchor": "start", "letter-spacing": "normal", "dominant-baseline": "auto"}
+
+// c19Grouping: how the renderer groups elements that share a style is not part of the drawing. The same
+// calls with a neutral pair of style changes (width w+1, width w) after every shape - which ends every
+// group - must give leaf for leaf the same element, text, geometry and effective presentation attributes.
+func c19Grouping(c *core.Ctx, seq []gcall, src, doc string) {
+	pen := newPen()
+	var seq2 []gcall
+	for _, g := range seq {
+		if !pen.apply(g) {
+			return
+		}
+		seq2 = append(seq2, g)
+		switch g.name {
+		case "line", "rect", "circle", "poly", "ellipse", "text":
+			w := pen.st.width / 10
+			if !(w >= 0) || w > 1e6 {
+				return
+			}
+			seq2 = append(seq2, gcall{name: "width", nums: []float64{w + 1}}, gcall{name: "width", nums: []float64{w}})
+		}
+	}
+	src2 := c19Source(seq2)
+	c.Journal(src2)
+	doc2, _, goPanic := c19Library(src2)
+	if goPanic != "" {
+		c.Violation("crash", "Go panic while drawing: "+firstN(goPanic, 200), src2, nil)
+		return
+	}
+	a, _, err1 := flattenSVG(doc)
+	b, _, err2 := flattenSVG(doc2)
+	if err1 != nil || err2 != nil {
+		return // malformed documents are reported by c19Judge
+	}
+	c.Event("grouping_variants_compared", 1)
+	if len(a) != len(b) {
+		c.Violation("grouping-dependent:count", fmt.Sprintf("%d elements, %d when every shape is followed by a neutral width change", len(a), len(b)), src, map[string]any{"variant": src2})
+		return
+	}
+	isInherited := map[string]bool{}
+	for _, k := range inherited {
+		isInherited[k] = true
+	}
+	for k := range a {
+		c.Event("grouping_leaves_compared", 1)
+		why := ""
+		switch {
+		case a[k].kind != b[k].kind || a[k].text != b[k].text:
+			why = fmt.Sprintf("element %d is <%s> %q, in the variant <%s> %q", k, a[k].kind, a[k].text, b[k].kind, b[k].text)
+		default:
+			rel := []string{"fill", "stroke", "stroke-width", "stroke-linecap", "stroke-dasharray"}
+			if a[k].kind == "text" {
+				rel = []string{"fill", "font-size", "font-weight", "font-style", "font-family", "text-anchor", "letter-spacing", "dominant-baseline"}
+			}
+			for _, at := range rel {
+				if x, y := effAttr(a[k], at, c19Initial[at]), effAttr(b[k], at, c19Initial[at]); x != y {
+					why = fmt.Sprintf("element %d <%s>: effective %s is %q, in the variant %q", k, a[k].kind, at, x, y)
+					break
+				}
+			}
+			for at, v := range a[k].own {
+				if !isInherited[at] && at != "style" && at != "class" && why == "" && b[k].own[at] != v {
+					why = fmt.Sprintf("element %d <%s>: %s is %q, in the variant %q", k, a[k].kind, at, v, b[k].own[at])
+				}
+			}
+		}
+		if why != "" {
+			c.Violation("grouping-dependent:"+a[k].kind, "the same drawing with a neutral style change after every shape renders differently: "+why, src, map[string]any{"variant": firstN(src2, 1500), "document": firstN(doc, 1200), "variant_document": firstN(doc2, 1200)})
+			return
+		}
+	}
 }
